@@ -9,12 +9,14 @@ import (
 // A minimal PDF writer, written from the PDF 1.4 file structure (header, body
 // of indirect objects, classic cross-reference table with 20-byte entries,
 // trailer, startxref).  One Helvetica Type1 font; every page is a list of
-// text lines, each shown by its own BT … Tj ET block.
+// text lines, each shown by its own BT … Tj ET block (optionally one Tj per glyph).
 
 // textLine is one shown string at a position.
 type textLine struct {
-	x, y int
-	s    string
+	x, y   int
+	s      string
+	size   int  // font size in points (0 = 12)
+	glyphs bool // one show operator per glyph (the text position advances by itself between them)
 }
 
 // pageSpec is the content of one page; no lines = a blank page.
@@ -38,7 +40,19 @@ func pdfEscape(s string) string {
 func contentStream(p pageSpec) string {
 	var b strings.Builder
 	for _, l := range p.lines {
-		fmt.Fprintf(&b, "BT /F1 12 Tf %d %d Td (%s) Tj ET\n", l.x, l.y, pdfEscape(l.s))
+		size := l.size
+		if size == 0 {
+			size = 12
+		}
+		if l.glyphs {
+			fmt.Fprintf(&b, "BT /F1 %d Tf %d %d Td", size, l.x, l.y)
+			for i := 0; i < len(l.s); i++ {
+				fmt.Fprintf(&b, " (%s) Tj", pdfEscape(l.s[i:i+1]))
+			}
+			b.WriteString(" ET\n")
+			continue
+		}
+		fmt.Fprintf(&b, "BT /F1 %d Tf %d %d Td (%s) Tj ET\n", size, l.x, l.y, pdfEscape(l.s))
 	}
 	return b.String()
 }
